@@ -19,6 +19,7 @@ mod lexical;
 mod parsetotal;
 mod extract;
 mod extracttrace;
+mod printertrace;
 mod laws;
 mod total;
 mod exprtrace;
@@ -73,6 +74,7 @@ fn main() {
                 "total" => total::trace(seed, n),
                 "expr" => exprtrace::trace(seed, n),
                 "extract" => extracttrace::trace(seed, n),
+                "printer" => printertrace::trace(seed, n),
                 "process" => total::trace_process(seed, n),
                 "sigint" => cli::trace_sigint(seed, n),
                 m => { eprintln!("unknown module {}", m); exit(2) }
